@@ -393,14 +393,62 @@ def indexerL (c : ECfg) (L : Lim) (r : ObjL) (args : VL) : RL ObjL := do
   let v ← withConv (indexerV r args) (do measure L (objSz c r); measureEach L (args.map (sizeofV c)))
   pure (.val v)
 
-/-- `x.name` for one element of a collection: one `#operator_.` call -/
-def memberVL (c : ECfg) (L : Lim) (name : Name) (x : Value) : RL Value := do
+/-- `x.name` for an element that is not a collection: `dict_keyword_access`, or `get_property` -/
+def memberFlatL (c : ECfg) (L : Lim) (name : Name) (x : Value) : RL Value := do
   let v ← (match Eval.memberV name x with
     -- neither a dict nor a collection: `get_property(obj, name)` binds the object, then `#property#name` is not found
     | .error .unknownFunction => (do measure L (sizeofV c x); .error (.base .unknownFunction) : RL Value)
     | res => withConv res (measure L (sizeofV c x)))
   measure L (sizeofV c v)
   pure v
+
+mutual
+/-- `x.name` for one element of a collection: one `#operator_.` call.  An element that is a collection
+    itself goes to `collection_attribution` again: it is bound to the `Iterable()` parameter (measured; a
+    sized collection is refused by `len` at once, an iterator is wrapped into the counting generator), the
+    call returns a `map` object (measured as the result of the call) whose items - one more `#operator_.`
+    call each - are computed when somebody consumes it; as in `Eval` that object is data of the outer
+    projection, so it must not carry an exception (`toVL`: a limit exception waiting in it is "no prediction"). -/
+def memberVL (c : ECfg) (L : Lim) (name : Name) : Value → RL Value
+  | .tuple l => do
+    measure L (sizeofV c (.tuple l)); limitLen L l.length
+    let s ← memberVLs c L name l
+    let v ← toVL (.lazy s.1 s.2)
+    measure L (sizeofV c v)
+    pure v
+  | .list l => do
+    measure L (sizeofV c (.list l)); limitLen L l.length
+    let s ← memberVLs c L name l
+    let v ← toVL (.lazy s.1 s.2)
+    measure L (sizeofV c v)
+    pure v
+  | .iter l => do
+    measure L (sizeofV c (.iter l))
+    let s ← memberVLs c L name l
+    let v ← toVL (ObjL.lazy (limitLazy L s).1 (limitLazy L s).2)
+    measure L (sizeofV c v)
+    pure v
+  | .null => memberFlatL c L name .null
+  | .bool b => memberFlatL c L name (.bool b)
+  | .int i => memberFlatL c L name (.int i)
+  | .flt f => memberFlatL c L name (.flt f)
+  | .str t => memberFlatL c L name (.str t)
+  | .dict d => memberFlatL c L name (.dict d)
+  | .set t => memberFlatL c L name (.set t)
+  | .host h => memberFlatL c L name (.host h)
+/-- `map(lambda t: operator(t, name), l)` under the limits (= `mapL (memberVL c L name) l none`) -/
+def memberVLs (c : ECfg) (L : Lim) (name : Name) : List Value → RL (VL × Option LErr)
+  | [] => .ok ([], none)
+  | x :: xs => do
+    match ← capture (memberVL c L name x) with
+    | .error er => pure ([], some er)
+    | .ok v => let r ← memberVLs c L name xs; pure (v :: r.1, r.2)
+end
+
+theorem memberVLs_eq (c : ECfg) (L : Lim) (name : Name) :
+    ∀ l : List Value, memberVLs c L name l = mapL (memberVL c L name) l none
+  | [] => by rw [memberVLs]; rfl
+  | x :: xs => by rw [memberVLs, mapL, memberVLs_eq c L name xs]
 
 def memberOfL (c : ECfg) (L : Lim) (r : ObjL) (name : Name) : RL ObjL :=
   match r with
@@ -409,6 +457,7 @@ def memberOfL (c : ECfg) (L : Lim) (r : ObjL) (name : Name) : RL ObjL :=
     match Seq.dGet d (.str name) with
     | some v => pure (.val v)
     | none => .error (.base .key)
+  | .val (.set _) => .error (.base .outOfDomain)
   | r =>
     match toIterL r with
     | some _ => do
